@@ -46,6 +46,10 @@ PROGRAMS = {
     "empty": "// nothing\n",
     "paths": "res / on get -> <{}>;\n",
     "schemas": "let @a = { 'x num };\nres /s on get -> <@a>;\n",
+    "tagged": ("# description: \"an item\"\nlet @item = { 'id! int, 'name str } `title: \"Item\"`;\n"
+               "# tags: [pets, internal, t1]\n# summary: \"list\"\n# operationId: \"listItems\"\nlet list = get { 'limit int } -> <status=200, headers={ 'X-Total int }, [@item]> `description: \"the items\"`;\n"
+               "# tags: [audit]\n# description: \"audit trail\"\nlet audit = get -> <status=200, media=\"text/plain\", str> :: <status=4XX, {}>;\n"
+               "res /items/{ 'shop str }?{ 'q str } on list, post : <@item> -> <status=201, @item>;\nres /audit on audit;\n"),
 }
 
 
@@ -228,7 +232,7 @@ def run(tier):
     chk.cov["distinct_nontrivial"] = nontrivial
     chk.cov["traces_validated_against_impl"] = len(cases) + ncli
     chk.cov["rule"] = ("TLC enumerates every abstract base (fields absent/present, components object absent/present, base paths and schemas "
-                       "absent/present) x 3 programs (%d pairs); %d pairs are realised and merged by the real Builder, %d also by oal-cli; "
+                       "absent/present) x 4 programs (%d pairs); %d pairs are realised and merged by the real Builder, %d also by oal-cli; "
                        "non-trivial = the base has a components object or paths of its own; pairs are distinct records" % (n_all, len(cases), ncli))
     if cases:
         chk.sample({"abstract_base": cases[0]["base"], "program": PROGRAMS[cases[0]["prog"]], "expected_out": cases[0]["out"]})
